@@ -21,6 +21,8 @@ func checkC11(p *Prog, r *Report) {
 	dispatcherRule(p, r, "C11.R2b")
 	c11Loops(p, r)
 	c11Files(p, r)
+	// results are the same alone or together: the session carries no state a run could leave behind for another (shared with C03.R2b)
+	c03Session(p, r, p.SSA(), "C11.R5")
 }
 
 // runReachableDecls maps the CHA run-reachable slice back to declarations.
